@@ -296,10 +296,15 @@ class Evaluator:
                 return None
             if val.path != p:
                 return False
-            if len(val.args) != len(pat["pats"]):
+            vargs = list(val.args)
+            dd = pat.get("ddpos")
+            if isinstance(dd, int) and len(vargs) >= len(pat["pats"]):
+                skip = len(vargs) - len(pat["pats"])
+                vargs = vargs[:dd] + vargs[dd + skip:]
+            if len(vargs) != len(pat["pats"]):
                 return None
             unknown = False
-            for sp, sv in zip(pat["pats"], val.args):
+            for sp, sv in zip(pat["pats"], vargs):
                 r = self.bind(sp, sv, env)
                 if r is False:
                     return False
@@ -322,10 +327,18 @@ class Evaluator:
                 return None if unknown else True
             return None
         if k == "tuple":
-            if not isinstance(val, T) or len(val.items) != len(pat["pats"]):
+            if not isinstance(val, T):
+                return None
+            pats, items = pat["pats"], list(val.items)
+            dd = pat.get("ddpos")
+            if isinstance(dd, int) and len(items) >= len(pats):
+                # `(a, b, ..)`: the rest pattern stands for the items not named
+                skip = len(items) - len(pats)
+                items = items[:dd] + items[dd + skip:]
+            if len(items) != len(pats):
                 return None
             unknown = False
-            for sp, sv in zip(pat["pats"], val.items):
+            for sp, sv in zip(pats, items):
                 r = self.bind(sp, sv, env)
                 if r is False:
                     return False
@@ -514,6 +527,11 @@ class Evaluator:
                 return self.ev(n["else"], env)
             return T(())
         condterm = self._safe(c, dict(env))
+        l = n.get("l")
+        if isinstance(l, list) and any(str(m).startswith("debug_assert") for m in l[1]) and n.get("else") is None:
+            # an undecided debug assertion: it has no effect on the value in a release build and panics in a debug
+            # build only when it fails; the fold continues as in a release build
+            return T(())
         ea = dict(e2)
         a = self._safe(n["then"], ea)
         eb = dict(env)
@@ -824,7 +842,10 @@ class Evaluator:
                     r = a * b
                 elif op == "/":
                     if isf:
-                        r = a / b
+                        if b == 0:
+                            r = float("nan") if (a == 0 or a != a) else float("inf") * (1 if (a > 0) == (str(float(b))[0] != "-") else -1)
+                        else:
+                            r = a / b
                     else:
                         if b == 0:
                             raise Panic("division by zero", line_of(n) if n else None)
@@ -833,7 +854,7 @@ class Evaluator:
                 elif op == "%":
                     if isf:
                         import math
-                        r = math.fmod(a, b)
+                        r = math.fmod(a, b) if (b != 0 and a == a and abs(a) != float("inf")) else float("nan")
                     else:
                         if b == 0:
                             raise Panic("remainder by zero", line_of(n) if n else None)
@@ -1337,6 +1358,17 @@ def _b_cmp(ev, n, a):
     return V(p + ("Less" if kx < ky else "Greater" if kx > ky else "Equal"), ())
 
 
+def _b_partial_cmp(ev, n, a):
+    x, y = a
+    kx, ky = ev.cmp_key(x), ev.cmp_key(y)
+    if kx is None or ky is None or type(kx) is not type(ky) and not (isinstance(kx, (int, float)) and isinstance(ky, (int, float))):
+        return NotImplemented
+    if isinstance(kx, float) and kx != kx or isinstance(ky, float) and ky != ky:
+        return V(NONE, ())
+    p = "core::cmp::Ordering::"
+    return some(V(p + ("Less" if kx < ky else "Greater" if kx > ky else "Equal"), ()))
+
+
 def _b_eq(neg):
     def f(ev, n, a):
         x, y = a
@@ -1490,6 +1522,7 @@ BUILTINS = {
     "core::cmp::max": _b_minmax("max"),
     "core::cmp::min": _b_minmax("min"),
     "core::cmp::Ord::cmp": _b_cmp,
+    "core::cmp::PartialOrd::partial_cmp": _b_partial_cmp,
     "core::cmp::PartialEq::eq": _b_eq(False),
     "core::cmp::PartialEq::ne": _b_eq(True),
     "core::ops::range::RangeInclusive::<Idx>::contains": _b_contains,
@@ -1711,7 +1744,166 @@ def _b_is_empty(ev, n, a):
     return (len(a[0].items) == 0) if isinstance(a[0], T) else NotImplemented
 
 
+def _b_numcast(ev, n, a):
+    """num_traits NumCast::from / ToPrimitive::to_* / FromPrimitive::from_*: Some(v) when the target type holds the value"""
+    import re as _re
+    v = a[0]
+    if not isinstance(v, (int, float)) or isinstance(v, bool):
+        return NotImplemented
+    m = _re.match(r"core::option::Option<(\w+)>", n.get("ty") or "")
+    t = m.group(1) if m else None
+    if t in INT_BITS:
+        if isinstance(v, float):
+            if v != v or v in (float("inf"), float("-inf")):
+                return V(NONE, ())
+            v = int(v)
+        return some(v) if wrap_int(v, t) == v else V(NONE, ())
+    if t in ("f64", "f32"):
+        return some(float(v))
+    return NotImplemented
+
+
+def _b_num_abs(ev, n, a):
+    v = a[0]
+    return abs(v) if isinstance(v, (int, float)) and not isinstance(v, bool) else NotImplemented
+
+
+def _b_num_signum(ev, n, a):
+    v = a[0]
+    if isinstance(v, bool) or not isinstance(v, (int, float)):
+        return NotImplemented
+    return type(v)((v > 0) - (v < 0))
+
+
+def _iter_items(v):
+    if isinstance(v, T):
+        return list(v.items)
+    if isinstance(v, Range) and isinstance(v.lo, int) and isinstance(v.hi, int) and v.hi - v.lo < 4096:
+        return list(range(v.lo, v.hi + (1 if v.inclusive else 0)))
+    return None
+
+
+def _b_iter_find(ev, n, a):
+    items = _iter_items(a[0])
+    if items is None:
+        return NotImplemented
+    for it in items:
+        r = _callable(ev, a[1], [it])
+        if r is True:
+            return some(it)
+        if r is not False:
+            return Sym("find", (a[0],))
+    return V(NONE, ())
+
+
+def _b_iter_position(ev, n, a):
+    items = _iter_items(a[0])
+    if items is None:
+        return NotImplemented
+    for i, it in enumerate(items):
+        r = _callable(ev, a[1], [it])
+        if r is True:
+            return some(i)
+        if r is not False:
+            return Sym("position", (a[0],))
+    return V(NONE, ())
+
+
+def _b_iter_any(ev, n, a):
+    items = _iter_items(a[0])
+    if items is None:
+        return NotImplemented
+    for it in items:
+        r = _callable(ev, a[1], [it])
+        if r is True:
+            return True
+        if r is not False:
+            return Sym("any", (a[0],))
+    return False
+
+
+def _b_iter_all(ev, n, a):
+    items = _iter_items(a[0])
+    if items is None:
+        return NotImplemented
+    for it in items:
+        r = _callable(ev, a[1], [it])
+        if r is False:
+            return False
+        if r is not True:
+            return Sym("all", (a[0],))
+    return True
+
+
+def _b_iter_find_map(ev, n, a):
+    items = _iter_items(a[0])
+    if items is None:
+        return NotImplemented
+    for it in items:
+        r = _callable(ev, a[1], [it])
+        if isinstance(r, V) and r.path == SOME:
+            return r
+        if not (isinstance(r, V) and r.path == NONE):
+            return Sym("find_map", (a[0],))
+    return V(NONE, ())
+
+
+def _b_iter_rev(ev, n, a):
+    items = _iter_items(a[0])
+    return T(tuple(reversed(items))) if items is not None else NotImplemented
+
+
+def _b_slice_contains(ev, n, a):
+    items = _iter_items(a[0])
+    if items is None or has_sym(a[1]) or any(has_sym(x) for x in items):
+        return NotImplemented
+    return any(x == a[1] for x in items)
+
+
+def _b_slice_get(ev, n, a):
+    if isinstance(a[0], T) and isinstance(a[1], int) and not isinstance(a[1], bool):
+        return some(a[0].items[a[1]]) if 0 <= a[1] < len(a[0].items) else V(NONE, ())
+    return NotImplemented
+
+
+def _b_strip_suffix(ev, n, a):
+    if isinstance(a[0], str) and isinstance(a[1], str):
+        return some(a[0][:len(a[0]) - len(a[1])]) if a[1] and a[0].endswith(a[1]) else (some(a[0]) if a[1] == "" else V(NONE, ()))
+    return NotImplemented
+
+
+def _b_strip_prefix(ev, n, a):
+    if isinstance(a[0], str) and isinstance(a[1], str):
+        return some(a[0][len(a[1]):]) if a[0].startswith(a[1]) else V(NONE, ())
+    return NotImplemented
+
+
+def _b_str_pred(which):
+    def f(ev, n, a):
+        if isinstance(a[0], str) and isinstance(a[1], str):
+            return {"ends_with": a[0].endswith(a[1]), "starts_with": a[0].startswith(a[1]), "contains": a[1] in a[0]}[which]
+        return NotImplemented
+    return f
+
+
 BUILTINS.update({
+    "core::str::<impl str>::strip_suffix": _b_strip_suffix,
+    "core::str::<impl str>::strip_prefix": _b_strip_prefix,
+    "core::str::<impl str>::ends_with": _b_str_pred("ends_with"),
+    "core::str::<impl str>::starts_with": _b_str_pred("starts_with"),
+    "core::str::<impl str>::len": lambda ev, n, a: len(a[0].encode()) if isinstance(a[0], str) else NotImplemented,
+    "core::str::<impl str>::is_empty": lambda ev, n, a: (a[0] == "") if isinstance(a[0], str) else NotImplemented,
+    "core::iter::traits::iterator::Iterator::find": _b_iter_find,
+    "core::iter::traits::iterator::Iterator::position": _b_iter_position,
+    "core::iter::traits::iterator::Iterator::any": _b_iter_any,
+    "core::iter::traits::iterator::Iterator::all": _b_iter_all,
+    "core::iter::traits::iterator::Iterator::find_map": _b_iter_find_map,
+    "core::iter::traits::iterator::Iterator::rev": _b_iter_rev,
+    "core::slice::<impl [T]>::contains": _b_slice_contains,
+    "core::slice::<impl [T]>::get": _b_slice_get,
+    "num_traits::cast::NumCast::from": _b_numcast,
+    "num_traits::sign::Signed::abs": _b_num_abs,
+    "num_traits::sign::Signed::signum": _b_num_signum,
     "core::slice::<impl [T]>::first": _b_first,
     "core::slice::<impl [T]>::last": _b_last,
     "core::slice::<impl [T]>::is_empty": _b_is_empty,
